@@ -10,16 +10,19 @@ using namespace vf;
 using squids::iCommutator; using squids::ACommutator; using squids::ElementwiseOperation;
 
 struct Operand {
-  std::vector<double> ext, snap; SU_vector v; int d; bool external;
-  Operand(int d_, bool external_, int which) : d(d_), external(external_) {
+  std::vector<double> ext, snap; SU_vector v; int d; bool external; double* base;
+  // shared != nullptr: this operand is a view of (the beginning of) another operand's user buffer
+  Operand(int d_, bool external_, int which, Operand* shared = nullptr) : d(d_), external(external_), base(nullptr) {
     snap = probe(d, which);
-    if (external) { ext = snap; ext.resize(d * d + 8, 12345.678); v = SU_vector(d, ext.data()); }
+    if (shared) { base = shared->base; snap.assign(base, base + d * d); v = SU_vector(d, base); external = true; }
+    else if (external) { ext = snap; ext.resize(36 + 8, 12345.678); for (int k = d * d; k < 36; k++) ext[k] = 0.25 * k; snapfull = ext; base = ext.data(); v = SU_vector(d, base); }
     else v = mkvec(d, snap);
   }
+  std::vector<double> snapfull;
   bool intact() const {
     if ((int)v.Dim() != d || (int)v.Size() != d * d) return false;
     for (int k = 0; k < d * d; k++) if (!ref::biteq(v[k], snap[k])) return false;
-    if (external) { if (&v[0] != ext.data()) return false; for (size_t k = d * d; k < ext.size(); k++) if (ext[k] != 12345.678) return false; }
+    if (external) { if (&v[0] != base) return false; if (!ext.empty()) for (size_t k = 0; k < ext.size(); k++) if (!ref::biteq(ext[k], snapfull[k])) return false; }
     return true;
   }
 };
@@ -76,6 +79,11 @@ static void add_binary_cases() {
       auto f = op.f;
       c.fn = [=]() { Operand a(d1, ext, 0), b(d2, ext, 1); return guard([&]() { f(a.v, b.v); }, [&]() { return a.intact() && b.intact(); }); };
       cases.push_back(c);
+      if (ext) {   // both operands are views of one user buffer (legal: the buffer fits the larger one); start addresses coincide
+        Case c2; c2.sig = std::string(op.name) + ":dimension-mismatch:shared-buffer"; c2.desc = fmt("%s d1=%d d2=%d storage=one-shared-user-buffer", op.name, d1, d2);
+        c2.fn = [=]() { Operand big(6, true, 2); Operand a(d1, true, 0, &big), b(d2, true, 1, &big); return guard([&]() { f(a.v, b.v); }, [&]() { return a.intact() && b.intact() && big.intact(); }); };
+        cases.push_back(c2);
+      }
     }
 }
 
